@@ -1,7 +1,13 @@
 package __PKG__
 
-import sdk "github.com/cosmos/cosmos-sdk/types"
+import (
+	sdk "github.com/cosmos/cosmos-sdk/types"
+	"github.com/cosmos/cosmos-sdk/types/module"
+)
 
 func vEnvApp() sdk.Context        { return sdk.Context{} }
 func vFixedMapOrder()             {}
 func vEventCount(name string) int { return 0 }
+func vConfigurator() module.Configurator                   { return nil }
+func vMigrationRegistered(mod string, from uint64) bool   { return false }
+func vMigrationCount(mod string) int                       { return 0 }
